@@ -91,6 +91,9 @@ func truncScenario(c *Ctx, sh truncShape) {
 		if i%11 == 0 {
 			data = []byte("d")
 		}
+		if i%13 == 5 && i >= 10 {
+			amt, data = spice.Melange{}, []byte("contract only") // moves no funds
+		}
 		t := w.NewTrx(iss, rec.Address(), amt, data)
 		if firstTrx == nil {
 			firstTrx = &t
@@ -151,6 +154,32 @@ func truncScenario(c *Ctx, sh truncShape) {
 	// nothing lost
 	if len(post.Vertices)+len(post.CpVertices) != len(preSnap.Vertices)+len(preSnap.CpVertices) {
 		c.Violate("C07", "vertex-lost-or-duplicated", fmt.Sprintf("live+stored went from %d to %d", len(preSnap.Vertices)+len(preSnap.CpVertices), len(post.Vertices)+len(post.CpVertices)), info)
+	}
+	// every declared parent of a vertex the node still knows (live or stored) is live or stored (C09)
+	{
+		known := map[[32]byte]bool{}
+		for _, v := range post.Vertices {
+			known[v.Hash] = true
+		}
+		for _, v := range post.CpVertices {
+			known[v.Hash] = true
+		}
+		var zero [32]byte
+		for _, vs := range [][]accountant.Vertex{post.Vertices, post.CpVertices} {
+			bad := false
+			for _, v := range vs {
+				for _, ph := range [][32]byte{v.LeftParentHash, v.RightParentHash} {
+					if ph != zero && !known[ph] {
+						c.Violate("C09", "declared-parent-neither-live-nor-checkpointed", fmt.Sprintf("after truncation vertex %x declares parent %x, which is neither in the live DAG nor in storage", v.Hash[:4], ph[:4]), info)
+						bad = true
+						break
+					}
+				}
+				if bad {
+					break
+				}
+			}
+		}
 	}
 	preLive := liveMap(&preSnap)
 	for h, v := range moved {
